@@ -36,7 +36,7 @@ theorem commitDrained_ok {cfg : Cfg} {pre : WState} {radix : Bool} {items : List
           cases h
           exact ⟨rows, deltas, hrows, hd, hm, hp, rfl⟩
 
-/-- every op a guarded item returns passed `check_op` -/
+/-- every op a guarded item returns passed `check_op_in` (hence `check_op`) -/
 theorem runItem_ok_checked {g : Guard} {st : Store} {p : Program} {ops : List Op}
     (h : runItem g st p = .ok ops) : ∀ o ∈ ops, g.checkOp o = true := by
   unfold runItem at h
@@ -45,11 +45,16 @@ theorem runItem_ok_checked {g : Guard} {st : Store} {p : Program} {ops : List Op
   simp only at h
   cases stop with
   | none =>
-    cases hall : ops'.all g.checkOp with
-    | true => simp only [hall] at h; cases h; exact List.all_eq_true.mp hall
+    cases hall : ops'.all (g.checkOpIn st) with
+    | true =>
+      simp only [hall] at h; cases h
+      intro o ho
+      have := List.all_eq_true.mp hall o ho
+      unfold Guard.checkOpIn at this
+      exact (Bool.and_eq_true_iff.mp this).1
     | false => simp only [hall] at h; cases h
   | some b =>
-    cases b <;> cases hall : ops'.all g.checkOp <;> simp only [hall] at h <;> cases h
+    cases b <;> cases hall : ops'.all (g.checkOpIn st) <;> simp only [hall] at h <;> cases h
 
 /-- an op that passes `check_op` is a node / edge / attachment op (never instance-level) -/
 theorem checkOp_skel {g : Guard} {o : Op} (h : g.checkOp o = true) : o.isSkel = true := by
